@@ -24,18 +24,9 @@ Section Gen.
   Hypothesis Hrec : forall s j, fsub (st_facts s) F0 ->
     (alookup j (st_facts s) <> None \/ (length (st_facts s) < length F0)%nat) -> okcall s j.
 
-  Lemma expire_gen s id fact :
-    fsub (st_facts s) F0 -> alookup id (st_facts s) = Some fact ->
-    expire rem1 s id fact now = expire rem2 s id fact now /\
-    fsub (st_facts (fst (fst (expire rem1 s id fact now)))) (st_facts s).
-  Proof.
-    intros Hs Hp. unfold expire. destruct (fact_expired fact now).
-    - destruct (Hrec s id Hs) as (He & _ & Hf); [left; congruence|].
-      rewrite <- He. split; [reflexivity|].
-      destruct (rem1 s id now) as [s' o]. cbn [fst] in *.
-      destruct (S (count_facts s') <? count_facts s)%nat; exact Hf.
-    - split; [reflexivity|]. apply fsub_refl.
-  Qed.
+  (** the searches no longer remove anything: they only note ids *)
+  Lemma expire_facts s id fact : st_facts (fst (expire s id fact now)) = st_facts s.
+  Proof. unfold expire. destruct (fact_expired fact now); reflexivity. Qed.
 
   Definition search_post (s : state) (acc : list (string * list bindings))
              (r1 r2 : state * outcome (list (string * list bindings))) : Prop :=
@@ -46,38 +37,36 @@ Section Gen.
   Lemma search_ids_gen pattern :
     (forall fact, core_match pattern fact [] <> OutOfFuel) ->
     forall ids s acc, fsub (st_facts s) F0 ->
-      search_post s acc (search_ids rem1 s ids pattern now acc) (search_ids rem2 s ids pattern now acc).
+      search_post s acc (search_ids s ids pattern now acc) (search_ids s ids pattern now acc).
   Proof.
     intros Hm. induction ids as [|id ids IH]; intros s acc Hs; cbn [search_ids].
     - repeat split; cbn [fst snd]; [discriminate|apply fsub_refl|].
       intros found Hf j Hj. inversion Hf; subst found. left.
       rewrite map_rev in Hj. apply in_rev in Hj. exact Hj.
     - destruct (alookup id (st_facts s)) as [fact|] eqn:Hp; [|apply IH; exact Hs].
-      destruct (expire_gen s id fact Hs Hp) as [He Hf]. rewrite <- He.
-      destruct (expire rem1 s id fact now) as [[s1 ex] err]. cbn [fst] in Hf.
-      assert (Hs1 : fsub (st_facts s1) F0) by (eapply fsub_trans; eauto).
-      destruct (expire_stops (st_kind s) err) as [e0|];
-        [repeat split; cbn [fst snd]; auto; discriminate|].
+      pose proof (expire_facts s id fact) as Hf.
+      destruct (expire s id fact now) as [s1 ex]. cbn [fst] in Hf.
+      assert (Hs1 : fsub (st_facts s1) F0) by (rewrite Hf; exact Hs).
       assert (Hwrap : forall acc', (forall j, In j (map fst acc') -> In j (map fst acc) \/ alookup j F0 <> None) ->
-                search_post s acc (search_ids rem1 s1 ids pattern now acc') (search_ids rem2 s1 ids pattern now acc')).
+                search_post s acc (search_ids s1 ids pattern now acc') (search_ids s1 ids pattern now acc')).
       { intros acc' Hacc. destruct (IH s1 acc' Hs1) as (H1 & H2 & H3 & H4).
         repeat split; auto.
-        - eapply fsub_trans; eauto.
+        - rewrite <- Hf. exact H3.
         - intros found Hfo j Hj. destruct (H4 found Hfo j Hj) as [H|H]; auto. }
       destruct ex; [apply Hwrap; auto|].
       destruct (core_match pattern fact []) as [bss| | |] eqn:Em.
       + destruct bss as [|b bss]; [apply Hwrap; auto|].
         apply Hwrap. intros j Hj. cbn [map fst In] in Hj. destruct Hj as [Hj|Hj]; auto.
         subst j. right. rewrite (fsub_lookup _ _ _ _ Hs Hp). discriminate.
-      + repeat split; cbn [fst snd]; auto; discriminate.
-      + repeat split; cbn [fst snd]; auto; discriminate.
+      + repeat split; cbn [fst snd]; try discriminate. rewrite Hf. apply fsub_refl.
+      + repeat split; cbn [fst snd]; try discriminate. rewrite Hf. apply fsub_refl.
       + exfalso. eapply Hm; eauto.
   Qed.
 
   Lemma search_state_gen pattern s :
     (forall fact, core_match pattern fact [] <> OutOfFuel) ->
     fsub (st_facts s) F0 ->
-    search_post s [] (search_state rem1 s pattern now) (search_state rem2 s pattern now).
+    search_post s [] (search_state s pattern now) (search_state s pattern now).
   Proof.
     intros Hm Hs. unfold search_state. destruct (st_kind s).
     - destruct (ti_search (st_tindex s) (extract_terms pattern)) as [ids| | |] eqn:E.
@@ -122,7 +111,7 @@ Section Gen.
     intros HF. unfold delete_dependencies.
     assert (Hs : fsub (st_facts s) F0) by (rewrite HF; apply fsub_refl).
     destruct (search_state_gen (dw_pattern id) s (core_match_dw_not_oof id) Hs) as (H1 & H2 & H3 & H4).
-    rewrite <- H1. destruct (search_state rem1 s (dw_pattern id) now) as [s1 o]. cbn [fst snd] in *.
+    destruct (search_state s (dw_pattern id) now) as [s1 o]. cbn [fst snd] in *.
     destruct o as [found| | |].
     - match goal with |- context [rem_list rem1 s1 ?ids ?skip now] =>
         destruct (rem_list_gen skip ids s1) as (G1 & G2 & G3) end.
@@ -313,3 +302,284 @@ Proof.
   rewrite (rem_fuel_stable now s id (2 * length (st_facts s) + 4)) by lia.
   reflexivity.
 Qed.
+
+(** * The purge terminates
+
+    A removal of the purge (a present id) either fails at its storage call
+    before anything else happened (linear state: nothing removed, nothing
+    noted) or removes the item from memory. *)
+Lemma rem_body_progress rem1 now s id :
+  (forall s' j, fsub (st_facts s') (aremove id (st_facts s)) ->
+     (alookup j (st_facts s') <> None \/ (length (st_facts s') < length (aremove id (st_facts s)))%nat) ->
+     okcall rem1 rem1 now s' j) ->
+  (st_kind s = Linear \/ alookup id (st_facts s) <> None) ->
+  fsub (st_facts (fst (rem_body rem1 s id now))) (aremove id (st_facts s)) \/
+  (st_pending (fst (rem_body rem1 s id now)) = st_pending s /\
+   st_facts (fst (rem_body rem1 s id now)) = st_facts s).
+Proof.
+  intros Hrec Hc. unfold rem_body.
+  destruct (st_kind s) eqn:Hk.
+  - destruct Hc as [Hc|Hc]; [discriminate|].
+    destruct (alookup id (st_facts s)) as [fact|] eqn:Hp; [|congruence].
+    set (s1 := match extract_rule fact false with Ok (Some rule) => unindex_rule s id rule | _ => s end).
+    assert (Hf1 : st_facts s1 = st_facts s).
+    { unfold s1. destruct (extract_rule fact false) as [[r|]| | |]; auto. apply facts_unindex_rule. }
+    cbv zeta.
+    match goal with |- context [store_call ?x] => set (s3 := x) end.
+    assert (Hf3 : st_facts s3 = aremove id (st_facts s)).
+    { unfold s3. cbn [st_facts set_tindex set_facts]. rewrite Hf1. reflexivity. }
+    unfold store_call.
+    match goal with |- context [if ?c then _ else _] => destruct c end.
+    + left. cbn [fst snd st_facts]. rewrite Hf3. apply fsub_refl.
+    + match goal with |- context [delete_dependencies rem1 ?x id now] => set (s5 := x) end.
+      assert (Hf5 : st_facts s5 = aremove id (st_facts s)) by (unfold s5; cbn [st_facts set_store]; exact Hf3).
+      left. rewrite <- Hf5.
+      apply (dd_wrap rem1 rem1 now s5 s5 id true).
+      * apply fsub_refl.
+      * apply delete_dependencies_gen with (F0 := aremove id (st_facts s)); auto.
+  - unfold store_call.
+    match goal with |- context [if ?c then _ else _] => destruct c end.
+    + right. split; reflexivity.
+    + cbv zeta.
+      match goal with |- context [delete_dependencies rem1 ?x id now] => set (s3 := x) end.
+      assert (Hf3 : st_facts s3 = aremove id (st_facts s)) by reflexivity.
+      match goal with |- context [Ok ?h] => generalize h; intros had end.
+      left. rewrite <- Hf3.
+      apply (dd_wrap rem1 rem1 now s3 s3 id had).
+      * apply fsub_refl.
+      * apply delete_dependencies_gen with (F0 := aremove id (st_facts s)); auto.
+Qed.
+
+Lemma st_rem_progress s id now :
+  alookup id (st_facts s) <> None ->
+  (length (st_facts (fst (st_rem s id now))) < length (st_facts s))%nat \/
+  (st_pending (fst (st_rem s id now)) = st_pending s /\
+   st_facts (fst (st_rem s id now)) = st_facts s).
+Proof.
+  intros Hp. unfold st_rem, cascade_fuel.
+  replace (2 * length (st_facts s) + 4)%nat with (S (2 * length (st_facts s) + 3)) by lia.
+  cbn [rem_fuel].
+  destruct (rem_body_progress (rem_fuel (2 * length (st_facts s) + 3)) now s id) as [H|H].
+  - intros s' j Hs' _. apply okcall_of_Good; [lia|].
+    pose proof (fsub_length _ _ Hs') as Hl.
+    pose proof (aremove_length_lt id (st_facts s) Hp) as Hlt.
+    apply (T_all_holds now (length (st_facts s'))); lia.
+  - right; exact Hp.
+  - left. pose proof (fsub_length _ _ H) as Hl.
+    pose proof (aremove_length_lt id (st_facts s) Hp) as Hlt. lia.
+  - right. exact H.
+Qed.
+
+(** one round of the purge: the fact map only shrinks; if the round noted
+    anything, it shrank *)
+Lemma purge_ids_progress ids : forall s now,
+  (length (st_facts (fst (purge_ids s ids now))) <= length (st_facts s))%nat /\
+  ((length (st_facts (fst (purge_ids s ids now))) < length (st_facts s))%nat \/
+   st_pending (fst (purge_ids s ids now)) = st_pending s) /\
+  snd (purge_ids s ids now) <> OutOfFuel.
+Proof.
+  induction ids as [|id r IH]; intros s now; cbn [purge_ids].
+  - cbn [fst snd]. repeat split; [lia|right; reflexivity|discriminate].
+  - destruct (alookup id (st_facts s)) as [fact|] eqn:Hp; [|apply IH].
+    destruct (fact_expired fact now); [|apply IH].
+    assert (Hp' : alookup id (st_facts s) <> None) by congruence.
+    pose proof (st_rem_progress s id now Hp') as Hpr.
+    pose proof (fsub_length _ _ (st_rem_fsub s id now)) as Hle.
+    pose proof (st_rem_not_oof s id now) as Hno.
+    destruct (st_rem s id now) as [s1 o]. cbn [fst snd] in *.
+    assert (Hgo : (length (st_facts (fst (purge_ids s1 r now))) <= length (st_facts s))%nat /\
+                  ((length (st_facts (fst (purge_ids s1 r now))) < length (st_facts s))%nat \/
+                   st_pending (fst (purge_ids s1 r now)) = st_pending s) /\
+                  snd (purge_ids s1 r now) <> OutOfFuel).
+    { destruct (IH s1 now) as (H1 & H2 & H3). repeat split; [lia| |exact H3].
+      destruct Hpr as [Hpr|[Hpr1 Hpr2]]; [left; lia|].
+      destruct H2 as [H2|H2]; [left; rewrite <- Hpr2; exact H2|right; congruence]. }
+    destruct o as [b|e|w|]; [exact Hgo|exact Hgo| |contradiction].
+    cbn [fst snd]. repeat split; [lia| |discriminate].
+    destruct Hpr as [Hpr|[Hpr1 _]]; [left; exact Hpr|right; exact Hpr1].
+Qed.
+
+Lemma purge_fuel_not_oof fuel : forall s now,
+  (length (st_facts s) < fuel)%nat -> snd (purge_fuel fuel s now) <> OutOfFuel.
+Proof.
+  induction fuel as [|f IH]; intros s now Hlen; [lia|].
+  cbn [purge_fuel]. destruct (st_pending s) as [|i ids] eqn:Ep; [discriminate|].
+  destruct (purge_ids_progress (i :: ids) (set_pending s []) now) as (H1 & H2 & H3).
+  destruct (purge_ids (set_pending s []) (i :: ids) now) as [s1 o]. cbn [fst snd st_facts set_pending] in *.
+  destruct o as [u|e|w|]; try discriminate; [|contradiction].
+  destruct H2 as [H2|H2].
+  - apply IH. lia.
+  - (* nothing was noted during the round: the next round has nothing to do *)
+    cbn [st_pending set_pending] in H2.
+    destruct f as [|f']; cbn [purge_fuel]; rewrite H2; discriminate.
+Qed.
+
+Lemma purge_not_oof s now : snd (purge s now) <> OutOfFuel.
+Proof. unfold purge, purge_rounds. apply purge_fuel_not_oof. lia. Qed.
+
+(** when the purge answers, no id is left noted *)
+Lemma purge_fuel_pending fuel : forall s now u,
+  snd (purge_fuel fuel s now) = Ok u -> st_pending (fst (purge_fuel fuel s now)) = [].
+Proof.
+  induction fuel as [|f IH]; intros s now u; cbn [purge_fuel].
+  - destruct (st_pending s) eqn:Ep; cbn [fst snd]; [intros _; exact Ep|discriminate].
+  - destruct (st_pending s) as [|i ids] eqn:Ep; cbn [fst snd]; [intros _; exact Ep|].
+    destruct (purge_ids (set_pending s []) (i :: ids) now) as [s1 [u1|e|w|]]; cbn [fst snd]; try discriminate.
+    apply IH.
+Qed.
+
+Lemma purge_pending s now u : snd (purge s now) = Ok u -> st_pending (fst (purge s now)) = [].
+Proof. apply purge_fuel_pending. Qed.
+
+(** the purge never reports an error of its own *)
+Lemma purge_ids_not_err ids : forall s now e, snd (purge_ids s ids now) <> Err e.
+Proof.
+  induction ids as [|id r IH]; intros s now e; cbn [purge_ids]; [discriminate|].
+  destruct (alookup id (st_facts s)) as [fact|]; [|apply IH].
+  destruct (fact_expired fact now); [|apply IH].
+  destruct (st_rem s id now) as [s1 [b|e1|w|]]; cbn [snd]; try discriminate; apply IH.
+Qed.
+
+Lemma purge_fuel_not_err fuel : forall s now e, snd (purge_fuel fuel s now) <> Err e.
+Proof.
+  induction fuel as [|f IH]; intros s now e; cbn [purge_fuel].
+  - destruct (st_pending s); discriminate.
+  - destruct (st_pending s) as [|i ids]; [discriminate|].
+    pose proof (purge_ids_not_err (i :: ids) (set_pending s []) now) as H.
+    destruct (purge_ids (set_pending s []) (i :: ids) now) as [s1 [u1|e1|w|]]; cbn [snd] in *; try discriminate.
+    + apply IH.
+    + exfalso. apply (H e1). reflexivity.
+Qed.
+
+Lemma purge_not_err s now e : snd (purge s now) <> Err e.
+Proof. apply purge_fuel_not_err. Qed.
+
+(** * The removal and the purge never panic: the only pattern they match is
+    [dw_pattern], on which the matcher always answers *)
+Lemma ti_search_not_panic idx terms w : ti_search idx terms <> Panic w.
+Proof.
+  unfold ti_search. destruct terms; [discriminate|].
+  destruct (ti_pick_smallest idx terms 1 (length (ti_ids idx s)) 0); discriminate.
+Qed.
+
+Lemma search_ids_dw_not_panic x now w : forall ids s acc,
+  snd (search_ids s ids (dw_pattern x) now acc) <> Panic w.
+Proof.
+  induction ids as [|i r IH]; intros s acc; cbn [search_ids]; [discriminate|].
+  destruct (alookup i (st_facts s)) as [fact|]; [|apply IH].
+  destruct (expire s i fact now) as [s1 [|]]; [apply IH|].
+  destruct (core_match_dw_ok x fact) as [res ->]. destruct res; apply IH.
+Qed.
+
+Lemma search_state_dw_not_panic x s now w : snd (search_state s (dw_pattern x) now) <> Panic w.
+Proof.
+  unfold search_state. destruct (st_kind s).
+  - destruct (ti_search (st_tindex s) (extract_terms (dw_pattern x))) as [ids|e|w'|] eqn:E;
+      cbn [snd]; try discriminate.
+    + apply search_ids_dw_not_panic.
+    + exfalso. eapply ti_search_not_panic; exact E.
+  - apply search_ids_dw_not_panic.
+Qed.
+
+Section NoPanic.
+  Variable rr : state -> string -> Z -> state * outcome bool.
+  Hypothesis rr_np : forall s j now w, snd (rr s j now) <> Panic w.
+
+  Lemma rem_list_not_panic skip now w : forall ids s, snd (rem_list rr s ids skip now) <> Panic w.
+  Proof.
+    induction ids as [|j r IH]; intros s; cbn [rem_list]; [discriminate|].
+    destruct (String.eqb j skip); [apply IH|].
+    pose proof (rr_np s j now) as H.
+    destruct (rr s j now) as [s1 [b|e|w'|]]; cbn [snd] in *; try discriminate; [apply IH|].
+    intros E. apply (H w'). reflexivity.
+  Qed.
+
+  Lemma delete_dependencies_not_panic s id now w : snd (delete_dependencies rr s id now) <> Panic w.
+  Proof.
+    unfold delete_dependencies.
+    pose proof (search_state_dw_not_panic id s now) as H.
+    destruct (search_state s (dw_pattern id) now) as [s1 [found|e|w'|]]; cbn [snd] in *; try discriminate.
+    - apply rem_list_not_panic.
+    - intros E. apply (H w'). reflexivity.
+  Qed.
+
+  Lemma rem_body_not_panic s id now w : snd (rem_body rr s id now) <> Panic w.
+  Proof.
+    unfold rem_body.
+    assert (Hw : forall (b : bool) s0,
+               snd (match delete_dependencies rr s0 id now with
+                    | (s6, Ok _) => (s6, Ok b)
+                    | (s6, Err e) => (s6, Err e)
+                    | (s6, Panic w0) => (s6, Panic w0)
+                    | (s6, OutOfFuel) => (s6, OutOfFuel)
+                    end) <> Panic w).
+    { intros b s0. pose proof (delete_dependencies_not_panic s0 id now) as H.
+      destruct (delete_dependencies rr s0 id now) as [s6 [u|e|w'|]]; cbn [snd] in *; try discriminate.
+      intros E. apply (H w'). reflexivity. }
+    destruct (st_kind s).
+    - destruct (alookup id (st_facts s)) as [fact|]; [|apply Hw].
+      cbv zeta. match goal with |- context [store_call ?x] => destruct (store_call x) as [s4 [|]] end;
+        [discriminate|apply Hw].
+    - destruct (store_call s) as [s1 [|]]; [discriminate|]. cbv zeta. apply Hw.
+  Qed.
+End NoPanic.
+
+Lemma rem_fuel_not_panic fuel : forall s id now w, snd (rem_fuel fuel s id now) <> Panic w.
+Proof.
+  induction fuel as [|f IH]; intros s id now w; cbn [rem_fuel]; [discriminate|].
+  apply rem_body_not_panic. exact IH.
+Qed.
+
+Lemma st_rem_not_panic s id now w : snd (st_rem s id now) <> Panic w.
+Proof. apply rem_fuel_not_panic. Qed.
+
+Lemma purge_ids_not_panic ids : forall s now w, snd (purge_ids s ids now) <> Panic w.
+Proof.
+  induction ids as [|id r IH]; intros s now w; cbn [purge_ids]; [discriminate|].
+  destruct (alookup id (st_facts s)) as [fact|]; [|apply IH].
+  destruct (fact_expired fact now); [|apply IH].
+  pose proof (st_rem_not_panic s id now) as H.
+  destruct (st_rem s id now) as [s1 [b|e|w'|]]; cbn [snd] in *; try discriminate; try apply IH.
+  intros E. apply (H w'). reflexivity.
+Qed.
+
+Lemma purge_fuel_not_panic fuel : forall s now w, snd (purge_fuel fuel s now) <> Panic w.
+Proof.
+  induction fuel as [|f IH]; intros s now w; cbn [purge_fuel].
+  - destruct (st_pending s); discriminate.
+  - destruct (st_pending s) as [|i ids]; [discriminate|].
+    pose proof (purge_ids_not_panic (i :: ids) (set_pending s []) now) as H.
+    destruct (purge_ids (set_pending s []) (i :: ids) now) as [s1 [u|e|w'|]]; cbn [snd] in *;
+      try discriminate; [apply IH|].
+    intros E. apply (H w'). reflexivity.
+Qed.
+
+Lemma purge_not_panic s now w : snd (purge s now) <> Panic w.
+Proof. apply purge_fuel_not_panic. Qed.
+
+(** so the purge always answers Ok, and a public entry point answers what its
+    operation proper answered *)
+Lemma purge_ok s now : snd (purge s now) = Ok tt.
+Proof.
+  pose proof (purge_not_oof s now) as H1. pose proof (purge_not_panic s now) as H2.
+  pose proof (purge_not_err s now) as H3.
+  destruct (snd (purge s now)) as [[]|e|w|]; [reflexivity| | |].
+  - exfalso. apply (H3 e). reflexivity.
+  - exfalso. apply (H2 w). reflexivity.
+  - exfalso. apply H1. reflexivity.
+Qed.
+
+Lemma purge_clears s now : st_pending (fst (purge s now)) = [].
+Proof. apply (purge_pending s now tt). apply purge_ok. Qed.
+
+Lemma with_purge_eq {A} (r : state * outcome A) now :
+  with_purge r now = (fst (purge (fst r) now), snd r).
+Proof.
+  unfold with_purge. rewrite purge_ok. destruct (snd r); reflexivity.
+Qed.
+
+Lemma snd_with_purge {A} (r : state * outcome A) now : snd (with_purge r now) = snd r.
+Proof. rewrite with_purge_eq. reflexivity. Qed.
+
+Lemma with_purge_pending {A} (r : state * outcome A) now : st_pending (fst (with_purge r now)) = [].
+Proof. rewrite with_purge_eq. cbn [fst]. apply purge_clears. Qed.
